@@ -65,18 +65,19 @@ def setup(ctx):
                  ("*" if "*" in atom.value else ""))
         ctx.nontrivial(atom.name, atom.op, shape, atom.reversed)
         seen = set()
+        env = {}   # ONE environment object, updated in place from interpreter to interpreter (a resolver's loop)
         for X, Y, Z in grid_for([atom.value]):
             if atom.name == "python_version":
                 if (X, Y) in seen:
                     continue
                 seen.add((X, Y))
                 val = f"{X}.{Y}"
-                env = {"python_version": val, "python_full_version": f"{X}.{Y}.{Z}"}
+                env.update({"python_version": val, "python_full_version": f"{X}.{Y}.{Z}"})
             else:
                 val = f"{X}.{Y}.{Z}"
-                env = {"python_version": f"{X}.{Y}", "python_full_version": val}
+                env.update({"python_version": f"{X}.{Y}", "python_full_version": val})
             try:
-                exp = MM.ev(atom, env)
+                exp = bool(atom.evaluate(env))   # the caller's own dict, not a copy
             except CaseTimeout:
                 raise
             except Exception:  # noqa: BLE001
@@ -118,6 +119,7 @@ def setup(ctx):
         ctx.shape("from_specifier:atom" if isinstance(r, E) else "from_specifier:" + type(r).__name__)
         vals = [str(b) for b in iv.bounds(spec)] if iv.readable(spec) else []
         seen = set()
+        env = {}   # one environment object updated in place
         for X, Y, Z in grid_for(vals):
             if name == "python_version":
                 if (X, Y) in seen:
@@ -126,7 +128,7 @@ def setup(ctx):
                 val = f"{X}.{Y}"
             else:
                 val = f"{X}.{Y}.{Z}"
-            env = {"python_version": f"{X}.{Y}", "python_full_version": f"{X}.{Y}.{Z}"}
+            env.update({"python_version": f"{X}.{Y}", "python_full_version": f"{X}.{Y}.{Z}"})
             try:
                 exp = val in spec
                 if iv.readable(spec) and hasattr(spec, "contains"):
@@ -140,7 +142,7 @@ def setup(ctx):
             except Exception:  # noqa: BLE001
                 return
             try:
-                got = MM.ev(r, env)
+                got = bool(r.evaluate(env))   # the caller's own dict, not a copy
             except CaseTimeout:
                 raise
             except Exception as e:  # noqa: BLE001
